@@ -39,12 +39,16 @@ func (p *faultPlan) hit(kind, detail string) bool {
 	if p == nil {
 		return false
 	}
-	i := p.calls
-	p.calls++
 	if !p.armed || p.fired > 0 || p.at < 0 {
 		return false
 	}
-	if i == p.at && (p.kind == "" || p.kind == kind) {
+	if p.kind != "" && p.kind != kind {
+		return false
+	}
+	// the at-th eligible call fails (eligible = of the plan's kind, or any call if the plan names none)
+	i := p.calls
+	p.calls++
+	if i == p.at {
 		p.fired++
 		p.firedAt = kind + " " + detail
 		p.t.Stat("fault:" + kind)
